@@ -218,6 +218,8 @@ class SqlalchemyRender:
             lim_up = self.to_expression(t.args[2])
 
             col = sa.between(col0, lim_down, lim_up)
+            if t.alias:
+                col = col.label(self.get_alias(t.alias))
         elif isinstance(t, ast.Interval):
             col = INTERVAL(t.args[0])
             if t.alias:
@@ -236,12 +238,9 @@ class SqlalchemyRender:
 
             order_by = None
             if t.order_by is not None:
-                order_by = []
-                for f in t.order_by:
-                    col0 = self.to_expression(f.field)
-                    if f.direction == 'DESC':
-                        col0 = col0.desc()
-                    order_by.append(col0)
+                order_by = self.to_order_by(t.order_by)
+            if t.modifier is not None:
+                raise NotImplementedError(f'Window frame: {t.modifier}')
 
             col = sa.over(
                 func,
@@ -276,16 +275,38 @@ class SqlalchemyRender:
         elif isinstance(t, ast.Exists):
             sub_stmt = self.prepare_select(t.query)
             col = sub_stmt.exists()
+            if t.alias:
+                col = col.label(self.get_alias(t.alias))
         elif isinstance(t, ast.NotExists):
             sub_stmt = self.prepare_select(t.query)
             col = ~sub_stmt.exists()
+            if t.alias:
+                col = col.label(self.get_alias(t.alias))
         elif isinstance(t, ast.Case):
             col = self.prepare_case(t)
+            if t.alias:
+                col = col.label(self.get_alias(t.alias))
         else:
             # some other complex object?
             raise NotImplementedError(f'Column {t}')
 
         return col
+
+    def to_order_by(self, order_by):
+        # list of ordering terms with direction and position of nulls
+        terms = []
+        for f in order_by:
+            col0 = self.to_expression(f.field)
+            if f.direction.upper() == 'DESC':
+                col0 = col0.desc()
+            elif f.direction.upper() == 'ASC':
+                col0 = col0.asc()
+            if f.nulls.upper() == 'NULLS FIRST':
+                col0 = sa.nullsfirst(col0)
+            elif f.nulls.upper() == 'NULLS LAST':
+                col0 = sa.nullslast(col0)
+            terms.append(col0)
+        return terms
 
     def prepare_case(self, t: ast.Case):
         conditions = []
@@ -304,6 +325,8 @@ class SqlalchemyRender:
         return sa.case(*conditions, else_=default, value=value)
 
     def to_function(self, t):
+        if t.namespace is not None:
+            raise NotImplementedError(f'Function with namespace: {t.namespace}.{t.op}')
         op = getattr(sa.func, t.op)
         if t.from_arg is not None:
             arg = t.args[0].to_string()
@@ -449,10 +472,14 @@ class SqlalchemyRender:
                         join_type = item['join_type']
                         method = 'join'
                         is_full = False
-                        if join_type == 'LEFT JOIN':
+                        if join_type in ('LEFT JOIN', 'LEFT OUTER JOIN'):
                             method = 'outerjoin'
-                        if join_type == 'FULL JOIN':
+                        elif join_type in ('FULL JOIN', 'FULL OUTER JOIN'):
+                            method = 'outerjoin'
                             is_full = True
+                        elif join_type not in ('JOIN', 'INNER JOIN', 'CROSS JOIN'):
+                            # sqlalchemy can't render it (RIGHT JOIN, ...)
+                            raise NotImplementedError(f'Join type: {join_type}')
 
                         # perform join
                         query = getattr(query, method)(
@@ -500,20 +527,7 @@ class SqlalchemyRender:
             query = query.having(self.to_expression(node.having))
 
         if node.order_by is not None:
-            order_by = []
-            for f in node.order_by:
-                col0 = self.to_expression(f.field)
-                if f.direction.upper() == 'DESC':
-                    col0 = col0.desc()
-                elif f.direction.upper() == 'ASC':
-                    col0 = col0.asc()
-                if f.nulls.upper() == 'NULLS FIRST':
-                    col0 = sa.nullsfirst(col0)
-                elif f.nulls.upper() == 'NULLS LAST':
-                    col0 = sa.nullslast(col0)
-                order_by.append(col0)
-
-            query = query.order_by(*order_by)
+            query = query.order_by(*self.to_order_by(node.order_by))
 
         if node.limit is not None:
             query = query.limit(node.limit.value)
@@ -543,6 +557,9 @@ class SqlalchemyRender:
         return func(step1, step2)
 
     def prepare_create_table(self, ast_query):
+        if ast_query.from_select is not None or ast_query.is_replace or ast_query.if_not_exists:
+            raise NotImplementedError('CREATE TABLE with select / OR REPLACE / IF NOT EXISTS')
+
         columns = []
 
         for col in ast_query.columns:
@@ -551,6 +568,8 @@ class SqlalchemyRender:
                 if isinstance(col.default, str):
                     default = sa.text(col.default)
 
+            if col.length is not None:
+                raise NotImplementedError(f'Column type with length: {col.type}({col.length})')
             col_type = col.type
             is_primary_key = col.is_primary_key
             if isinstance(col_type, str) and col_type.lower() == 'serial':
@@ -587,6 +606,8 @@ class SqlalchemyRender:
     def prepare_drop_table(self, ast_query):
         if len(ast_query.tables) != 1:
             raise NotImplementedError('Only one table is supported')
+        if ast_query.only_temporary:
+            raise NotImplementedError('DROP TEMPORARY TABLE')
 
         schema, table_name = self.get_table_name(ast_query.tables[0])
 
@@ -649,7 +670,7 @@ class SqlalchemyRender:
         return stmt, params
 
     def prepare_update(self, ast_query):
-        if ast_query.from_select is not None:
+        if ast_query.from_select is not None or ast_query.keys is not None:
             raise NotImplementedError('Render of update with sub-select is not implemented')
 
         schema, table_name = self.get_table_name(ast_query.table)
